@@ -133,7 +133,7 @@ func cutDirectories(p, dirs string) (string, bool) {
 }
 
 func isExternalRef(ref string, parentIsExternal bool) bool {
-	return ref != "" && (!strings.HasPrefix(ref, "#/components/") || parentIsExternal)
+	return ref != "" && (!strings.HasPrefix(ref, "#") || parentIsExternal)
 }
 
 func (doc *T) addSchemaToSpec(s *SchemaRef, refNameResolver RefNameResolver, parentIsExternal bool) bool {
